@@ -212,7 +212,19 @@ func (m *Muxer) isAnimated() bool {
 
 // needsVP8X returns true if the file requires the extended format header.
 func (m *Muxer) needsVP8X() bool {
-	return m.isAnimated() || m.iccData != nil || m.exifData != nil || m.xmpData != nil
+	return m.isAnimated() || m.iccData != nil || m.exifData != nil || m.xmpData != nil || m.hasAlphaChunk()
+}
+
+// hasAlphaChunk reports whether a frame's data carries an ALPH chunk in front
+// of its bitstream; such a frame is written as two chunks, which only the
+// extended format allows.
+func (m *Muxer) hasAlphaChunk() bool {
+	for _, f := range m.frames {
+		if alphaData, _ := splitAlphaAndBitstream(f.data); alphaData != nil {
+			return true
+		}
+	}
+	return false
 }
 
 // Assemble writes the complete WebP file to w.
@@ -381,7 +393,7 @@ func (m *Muxer) assembleExtended(w io.Writer) error {
 				riffPayload64++
 			}
 		} else {
-			riffPayload64 += uint64(chunkTotalSize(uint32(len(f.data))))
+			riffPayload64 += uint64(subChunkSize(f.data))
 		}
 	}
 
@@ -447,7 +459,13 @@ func (m *Muxer) assembleExtended(w io.Writer) error {
 				return err
 			}
 		} else {
-			if err := writeDataChunk(w, detectBitstreamType(f.data), f.data); err != nil {
+			alphaData, bitstream := splitAlphaAndBitstream(f.data)
+			if alphaData != nil {
+				if err := writeDataChunk(w, FourCCALPH, alphaData); err != nil {
+					return err
+				}
+			}
+			if err := writeDataChunk(w, detectBitstreamType(bitstream), bitstream); err != nil {
 				return err
 			}
 		}
